@@ -283,7 +283,7 @@ def _variants(schemas):
                             yield c
 
 
-def minimise(ast, layout_seed, opts, sig, wd, budget=250):
+def minimise(ast, layout_seed, opts, sig, wd, budget=250, deadline=None):
     def fails(text):
         src = os.path.join(wd, "m.exp")
         with open(src, "w") as f:
@@ -303,8 +303,8 @@ def minimise(ast, layout_seed, opts, sig, wd, budget=250):
         progress = False
         for cand in _variants(best):
             used += 1
-            if used > budget:
-                break
+            if used > budget or (deadline is not None and time.time() > deadline):
+                return text
             try:
                 t = explang_render.render_file(cand, layout_seed, remarks=False)
             except Exception:
@@ -526,6 +526,7 @@ def main(tier, seed):
 
     # failures of generated cases: known shape -> counted; else minimise, confirm 3x, replay
     done_sigs = {}
+    min_deadline = time.time() + (60 if tier == "quick" else 240)      # minimisation is best effort and time boxed
     for s, x in failures:
         sig = x["sig"]
         if sig in known:
@@ -555,7 +556,8 @@ def main(tier, seed):
             continue
         small = None
         try:
-            small = minimise(s["ast"], s["model"]["layout_seed"], x["opts"], sig, wd)
+            if time.time() < min_deadline:
+                small = minimise(s["ast"], s["model"]["layout_seed"], x["opts"], sig, wd, deadline=min_deadline)
         except Exception as e:          # the minimiser is best effort
             ev.inconclusive.append("minimiser failed: %r" % (e,))
         cand = small if small else text
